@@ -21,7 +21,7 @@ ID = 'C17'
 LEVEL = 'model_checking'
 TECHNIQUE = 'exhaustive replay of all TLC model traces on traced/untraced/plain twins (differential), label and snapshot sequence oracle from the pass log'
 RULE = ('every terminal state of SolveT.tla (full alphabet, N=3 quick / 4 thorough) x trace in {True, [A,B], "A"} x entry in '
-        '{solve_t, solve_period, solve} x second solve of the same period; parser-built catalogue x max_iter with per-pass twin. '
+        '{solve_t, solve_period, solve} x second solve of the same period; Alias+Tracer classes (both orders) with aliases in trace=, a class with a renamed trace attribute; parser-built catalogue x max_iter with per-pass twin. '
         'non-trivial = traced execution that records at least one snapshot')
 ASSUMPTIONS = c02.ASSUMPTIONS + [
     'a pass that raised before completing leaves no snapshot (the trace stops after the last completed pass)',
